@@ -154,12 +154,14 @@ def classify(subpaths, style, pts, delta=DELTA):
                     if E is None:
                         continue
                     E = np.asarray(E)
+                    Tn = np.asarray(T) * sign
+                    rel = pts - E
+                    along = rel @ Tn
                     if cap == "round":
-                        inside |= ((pts - E) ** 2).sum(1) < rin * rin
+                        # the half disc on the outward side only: the other half belongs to the
+                        # stroke body, which need not continue straight (corner right after the end)
+                        inside |= (along >= 0) & ((rel ** 2).sum(1) < rin * rin)
                     else:
-                        Tn = np.asarray(T) * sign
-                        rel = pts - E
-                        along = rel @ Tn
                         across = rel @ np.asarray([-Tn[1], Tn[0]])
                         inside |= (along >= 0) & (along < rin) & (np.abs(across) < rin)
     bound = half * max(1.0, ml if join == "miter" else 1.0, math.sqrt(2) if cap == "square" else 1.0) + delta
